@@ -223,7 +223,7 @@ func tryReplayLemma(prog *Prog, fr *FuncResult, o *Obligation, timeoutS int) (st
 			}
 		}
 	}
-	dir := filepath.Join(verifRoot, "work", "replay")
+	dir := replayWorkDir()
 	asserts := append(obligationAsserts(fr, o), small...)
 	vals, ok := getValues(asserts, terms, filepath.Join(dir, fileSafe(o.Name)+"_model.smt2"), timeoutS)
 	if !ok {
